@@ -233,6 +233,18 @@ def parse_model_dump(s: str, iters: bool) -> dict[str, list[str]]:
     return out
 
 
+def split_labels(s: str) -> list[str]:
+    """a '.'-joined list of labels -> labels. A merged string's label (`s1001.9`, text "1001.9.") itself contains dots: a token
+    that does not begin with a letter continues the previous label."""
+    out: list[str] = []
+    for tk in s.split("."):
+        if out and tk[:1].isdigit():
+            out[-1] += "." + tk
+        else:
+            out.append(tk)
+    return out
+
+
 def canon(d: dict[str, list[str]], soups: set[str]) -> dict[str, list[str]]:
     """Remove the freedom the property grants: a BeautifulSoup root may stand outside the element chain.
     root.ne in {none, first child} -> '*'; first child's pe in {none, root} -> '*'; a trailing root is dropped
@@ -241,7 +253,7 @@ def canon(d: dict[str, list[str]], soups: set[str]) -> dict[str, list[str]]:
     for l, row in d.items():
         row = list(row)
         parent, ps, ns, pe, ne, kids = row[:6]
-        first = kids.split(".")[0] if kids != "-" else None
+        first = split_labels(kids)[0] if kids != "-" else None
         if l in soups:
             if ne == "-" or ne == first:
                 row[4] = "*"
@@ -250,7 +262,7 @@ def canon(d: dict[str, list[str]], soups: set[str]) -> dict[str, list[str]]:
         if parent in soups and ps == "-" and (pe == "-" or pe == parent):
             row[3] = "*"
         if len(row) > 6:
-            pv = row[8].split(".") if row[8] != "-" else []
+            pv = split_labels(row[8]) if row[8] != "-" else []
             if pv and pv[-1] in soups:
                 pv = pv[:-1]
             row[8] = ".".join(pv) if pv else "-"
